@@ -11,7 +11,8 @@ Readings of the RFC used by BOTH independent references (Lean `Rfc.TransportPara
   * dc_supported_versions / mtu_probing_complete_support are private parameters the endpoint supports; their
     value format is the owner's (transcribed from the code's doc comments), not "unknown ⇒ ignore".
 Connection-ID authentication (session_context.rs, private to s2n-quic-transport) is modelled in
-`Conn.TpAuth` and proved (`tp_cid_auth`), but has no differential tie from vh-core."""
+`Conn.TpAuth` and proved (`tp_cid_auth`); it has no differential tie from vh-core - its tie is end to end, on real
+endpoints: props/parts/C14_auth_e2e.py (family `tpauth`)."""
 from vlib import *
 
 PROP_MODULES = ["QuicProofs.Props.C14TransportParams"]
@@ -35,7 +36,8 @@ def run(ctx):
         "Lean kernel; tools/extractors/transport_params.py (regex extraction of the field table, validator operators/constants, "
         "check order); vh-core harness; python generator and RFC oracle",
         "TLS carriage of the extension and the connection-id authentication in s2n-quic-transport/src/space/session_context.rs are "
-        "modelled (Conn.TpAuth) but not differentially tied from vh-core (private to the crate)",
+        "modelled (Conn.TpAuth) but not differentially tied from vh-core (private to the crate); the connection-id authentication is tied "
+        "end to end by the part C14_auth_e2e (family tpauth)",
         "the DecoderError variant of a rejected block is a soft observable (all map to TRANSPORT_PARAMETER_ERROR)"]
     step_extract(ctx, ["transport_params", "varint"])
     lean_ok = step_lean(ctx, PROP_MODULES, BRIDGES)
